@@ -28,5 +28,6 @@ func main() {
 		}
 	}
 	write("GenBodies.v", genBodies(*repo))
+	write("GenSkeletons.v", genSkeletons(*repo))
 	fmt.Println("srcextract: ok")
 }
